@@ -51,7 +51,8 @@ def truth_restart(spec, r):
     from aurel import reading
     rs = spec['restarts'][r]
     out = {}
-    out['var available'] = set(reading.transform_vars_ET_to_aurel_groups(list(spec['vars'])))
+    out['var available'] = set(reading.transform_vars_ET_to_aurel_groups(
+        list(rs.get('vars', spec['vars']))))
     allits = sorted({i for its in rs['its'].values() for i in its})
     out['its available'] = [min(allits), max(allits)]
     for rl, its in rs['its'].items():
@@ -93,7 +94,7 @@ def norm_content(c):
 def truth_content(spec, r):
     groups = {}
     nb = len(spec['levels'][0]['boxes'])
-    for v in spec['vars']:
+    for v in spec['restarts'][r].get('vars', spec['vars']):
         base = etgen.file_base(v, spec['grouped'], spec.get('custom_group'))
         xyz = '.xyz' if spec.get('xyz') else ''
         if spec['layout'] == 'proc':
@@ -113,11 +114,22 @@ def gen_cat_spec(seed):
     strides = {rl: 2 ** (nlev - 1 - rl) * int(rng.choice([1, 2, 4])) for rl in range(nlev)}
     restarts = []
     start = 0
+    vary = bool(rng.random() < 0.5)
+    grow = bool(spec.get('custom_group')) or bool(rng.random() < 0.3)
+    if grow and spec['grouped']:
+        # an unknown group whose variable list is extended at a later restart
+        spec['custom_group'] = ('mythorn-mygroup', ['alp', 'tau'])
+        spec['vars'] = [v for v in spec['vars'] if v not in ('alp', 'tau')] + ['alp', 'tau']
     for r in range(nres):
         length = int(rng.integers(0, 4))
         bs = 2 ** (nlev - 1) * 4
+        if vary and r and rng.random() < 0.5:
+            # out_every changed in the parameter file of this restart
+            strides = {rl: 2 ** (nlev - 1 - rl) * int(rng.choice([1, 2, 4])) for rl in range(nlev)}
         its = {rl: list(range(start, start + length * bs + 1, strides[rl])) for rl in range(nlev)}
         rs = dict(its=its, rtag=r + 1)
+        if grow and spec['grouped'] and r < nres // 2:
+            rs['vars'] = [v for v in spec['vars'] if v != 'tau']
         if rng.random() < 0.6:
             pool = list(range(start, start + length * bs + 1, bs))
             rs['checkpoints'] = sorted({int(v) for v in rng.choice(pool, int(rng.integers(1, 3)))})
